@@ -117,7 +117,8 @@ thread_local! {
 
 #[inline]
 pub fn hit(site: Site) {
-    HITS.with(|h| h.borrow_mut()[site as usize] += 1);
+    // `try_with`: the library may be called from a thread-local destructor after this counter array is gone
+    let _ = HITS.try_with(|h| h.borrow_mut()[site as usize] += 1);
 }
 
 /// Current hit counters as (site name, count).
@@ -191,7 +192,7 @@ pub fn take_division_log() -> Vec<Division> {
 }
 
 pub fn log_division(d: Division) {
-    DIVISIONS.with(|log| {
+    let _ = DIVISIONS.try_with(|log| {
         if let Some(v) = log.borrow_mut().as_mut() {
             v.push(d)
         }
@@ -199,7 +200,7 @@ pub fn log_division(d: Division) {
 }
 
 pub fn division_log_enabled() -> bool {
-    DIVISIONS.with(|d| d.borrow().is_some())
+    DIVISIONS.try_with(|d| d.borrow().is_some()).unwrap_or(false)
 }
 
 pub type StatusObserver<'a, F> = dyn FnMut(&Rc<SweepEvent<F>>, &[Rc<SweepEvent<F>>]) + 'a;
